@@ -464,20 +464,24 @@ class SchedLock:
         self.sched = sched
         self.owner = None
         self.depth = 0
+        self.mutex = threading.Lock()   # only one scheduled thread runs at a time; this is for the case that the scheduler
+                                        # misjudged a slow thread as blocked (Sched.PATIENCE)
 
     def acquire(self, blocking=True, timeout=-1):
         me = self.sched.current() or 'harness'
 
-        while self.owner is not None and self.owner is not me:
+        while True:
+            with self.mutex:
+                if self.owner is None or self.owner is me:
+                    self.owner  = me
+                    self.depth += 1
+
+                    return True
+
             if not blocking or me == 'harness':
                 return False
 
             self.sched.lock_wait(me)
-
-        self.owner  = me
-        self.depth += 1
-
-        return True
 
     def release(self):
         if self.owner is not (self.sched.current() or 'harness'):
@@ -633,6 +637,8 @@ class Exec:
         self.snap  = {}
         self.stats = {}
         self.ops   = None    # file-system operations of one save, as traced
+        self.sched = None    # concurrent(): the scheduler after its threads have ended
+        self.info  = None
 
         for d in (self.dir, self.sdir):
             os.makedirs(d, exist_ok=True)
@@ -1147,7 +1153,7 @@ def conc_execute(cfg, hist, variant, prefix=(), lenient=False):
         try:
             sched, info = ex.concurrent(variant, prefix, lenient)
         except Violation as v:
-            return Violation('C14/concurrent-saves-' + v.sig.split('/', 1)[1], v.what), ex.sched.trace, ex.info
+            return Violation('C14/concurrent-saves-' + v.sig.split('/', 1)[1], v.what), ex.sched.trace if ex.sched else [], ex.info
 
         return None, sched.trace, info
 
@@ -1171,8 +1177,8 @@ def conc_cases(tier):
         cfg = {'name': 'concurrent-saves', 'mode': mode, 'file_size': 100, 'total_size': 1000, 'small': 4 - nl, 'big': 100 - nl,
                'crashes': 0, 'full_torn_depth': -1}
 
-        states = [(('W', 'w', 'w', 'r'), 'NCE'), (('W', 'w', 'w', 'r', 'r'), 'N' if quick else 'NCE'), (('w', 'W', 'w', 'r'), 'NE' if quick else 'NCE'),
-                  (('W', 'w', 'w', 'r', 's'), 'NC' if quick else 'NCE'), (('W', 'w', 'w'), 'N' if quick else 'NCE')]
+        states = [(('W', 'w', 'w', 'r'), 'NCE'), (('W', 'w', 'w', 'r', 'r'), 'NCE'), (('w', 'W', 'w', 'r'), 'NCE'),
+                  (('W', 'w', 'w', 'r', 's'), 'NCE'), (('W', 'w', 'w'), 'NCE')]
 
         if mode == 'bin':   # a read returns the rest of the file: the second state's second read finds nothing
             states[1] = (('W', 'w', 'r', 'r', 'w'), 'NCE')
